@@ -390,6 +390,14 @@ static NS void check_history(uint64_t *final_state)
 		ds_fail("history is not linearizable against the multiset-per-key specification: %s", buf);
 	}
 	if (r < 0) ds_flag(CF_LIN_INCONCLUSIVE);
+	/* which keys are managed with unique insertion only */
+	int plain_add_seen[16] = { 0 }, unique_add_seen[16] = { 0 };
+	for (int i = 0; i < nhist; i++) {
+		struct lin_op *o = &hist[i].op;
+		if (o->type == H_ADD && o->a >= 0 && o->a < 16) plain_add_seen[o->a] = 1;
+		if ((o->type == H_ADDU || o->type == H_ADDR) && o->a >= 0 && o->a < 16) unique_add_seen[o->a] = 1;
+		if (o->type == H_REPLN && o->b >= 0 && o->b < MAXNODES && node_key[o->b] >= 0 && node_key[o->b] < 16) unique_add_seen[node_key[o->b]] |= 0;
+	}
 	/* walks, traversals, count: interval predicates */
 	for (int i = 0; i < nhist; i++) {
 		struct hop *h = &hist[i];
@@ -406,6 +414,14 @@ static NS void check_history(uint64_t *final_state)
 			int lo = __builtin_popcountll(def), hi = __builtin_popcountll(pos);
 			if (h->op.r < lo || h->op.r > hi) ds_fail("cds_lfht_count_nodes returned %ld while between %d and %d nodes were present during the call", h->op.r, lo, hi);
 			continue;
+		}
+		/* C06: a key that is only ever inserted with add_unique / add_replace is never returned twice by one walk or traversal, replacement being atomic */
+		for (int k = 0; k < 16; k++) {
+			if (plain_add_seen[k] || !unique_add_seen[k]) continue;
+			if (h->op.type == H_WALK && k != h->op.a) continue;
+			uint64_t got = h->set & keymask[k];
+			if (got & (got - 1))
+				ds_fail("%s(@%lu-%lu) returned two nodes (%d and %d) with key %d, which is only ever inserted with add_unique/add_replace", tname(h->op.type), a, b, __builtin_ctzll(got), 63 - __builtin_clzll(got), k);
 		}
 		if (def & ~h->set) ds_fail("%s(@%lu-%lu) missed node %d which was in the table for the whole duration of the call", tname(h->op.type), a, b, __builtin_ctzll(def & ~h->set));
 		if (h->set & ~pos) ds_fail("%s(@%lu-%lu) returned node %d which was not in the table at any moment during the call", tname(h->op.type), a, b, __builtin_ctzll(h->set & ~pos));
